@@ -1,4 +1,5 @@
 import PegVerif.Proofs.Packrat
+import PegVerif.Proofs.NonVacuity
 /-
   C06 – a memoized rule body runs at most once per input position (packrat bound).
   The ghost event `bodyEval name off` is emitted by the model of `generate_memoized_body` right
@@ -45,5 +46,67 @@ theorem C06_no_reevaluation {env : Env} (hnl : NoLeftrec env.g) {g g1 g2 : Globa
     (hl1 : g1.log = l1 ++ g.log) (hl2 : g2.log = l2 ++ g1.log) {k : String × Nat}
     (hk : 0 < evals l1 k) : evals l2 k = 0 :=
   Peg.C06_no_reevaluation hnl h1 h2 hl1 hl2 hk
+
+/-! ## non-vacuity (BEGIN) -/
+namespace C06_nv
+open Peg.NV
+
+/-! instance: `NV.envH [.memoize]` = `@export S = a:Num '+' b:Num | a:Num '-' b:Num | w:Word; @string @memoize Num = …`
+    on `"1-2"`: `Num` is attempted twice at offset 0 (first and second alternative) and once at offset 2 -/
+def envM : Env := envH [.memoize]
+theorem hp : PureHooks envM.hooks := pure_default
+theorem hnl : NoLeftrec envM.g := noLeftrec_of (by decide)
+theorem hf : envM.g.find "Num" = some (.rule (ruleNum [.memoize])) := rfl
+theorem hm : (ruleNum [.memoize]).flags.memoize = true := rfl
+
+theorem run_some : (parseAdvanced envM 20 "S" inpH 0).isSome = true := by decide
+def gEnd : Global := ((parseAdvanced envM 20 "S" inpH 0).get run_some).2
+
+/-- `C06_once` / `C06_bound` instantiated … -/
+example : evals gEnd.log ("Num", 0) ≤ 1 := C06_once hp hnl (run_eq run_some) ("Num", 0)
+example : (bodyKeys gEnd.log).length ≤ (memoNames envM.g).length * (inpH.length + 1) := C06_bound hp hnl (run_eq run_some)
+/-- … and what happened: two attempts at `("Num", 0)` – one body evaluation and one cache hit; two keys evaluated out
+    of the 1 × 4 the bound allows -/
+example : evals gEnd.log ("Num", 0) = 1 ∧ hits gEnd.log = 1 ∧ bodyKeys gEnd.log = [("Num", 2), ("Num", 0)] ∧
+    memoNames envM.g = ["Num"] := by decide
+
+/-- `C06_result_is_cached`, a success (`Num` at offset 0) and a failure (`Num` at offset 1, in front of `-`) -/
+example : ∃ v s' g', (eval envM 20).rule "Num" (St.new inpH) (Global.init 0) = some (.ok v s', g') ∧
+    g'.lookup ("Num", 0) = some (.ok v s') := by
+  obtain ⟨v, s', g', h, -⟩ := ok_of (o := (eval envM 20).rule "Num" (St.new inpH) (Global.init 0)) (fun _ s _ => s.off == 1)
+    (by decide)
+  exact ⟨v, s', g', h, C06_result_is_cached hnl h (fun m hm => by cases hm) hf hm⟩
+def sMinus : St := ⟨[45, 50], 1, none⟩
+example : ∃ e g', (eval envM 20).rule "Num" sMinus (Global.init 0) = some (.err e, g') ∧
+    g'.lookup ("Num", 1) = some (.err e) := by
+  obtain ⟨e, g', h, -⟩ := err_of (o := (eval envM 20).rule "Num" sMinus (Global.init 0)) (fun e _ => e.pos == 1) (by decide)
+  exact ⟨e, g', h, C06_result_is_cached hnl h (fun m hm => by cases hm) hf hm⟩
+
+/-! two successive evaluations: `Num` at offset 0 from the fresh global, then the whole of `S` from the global the first
+    one left (`C06_answered_from_cache`, `C06_no_reevaluation`) -/
+theorem first_some : ((eval envM 20).rule "Num" (St.new inpH) (Global.init 0)).isSome = true := by decide
+def g1 : Global := (((eval envM 20).rule "Num" (St.new inpH) (Global.init 0)).get first_some).2
+theorem g1_hit : (g1.lookup ("Num", 0)).isSome = true := by decide
+
+theorem again_some : ((eval envM 20).rule "Num" (St.new inpH) g1).isSome = true := by decide
+example : (((eval envM 20).rule "Num" (St.new inpH) g1).get again_some).1 = (g1.lookup ("Num", 0)).get g1_hit ∧
+    ∀ l, (((eval envM 20).rule "Num" (St.new inpH) g1).get again_some).2.log = l ++ g1.log → ∀ k, evals l k = 0 :=
+  C06_answered_from_cache hnl (run_eq again_some) hf hm (Option.some_get g1_hit).symm
+
+theorem second_some : ((eval envM 20).rule "S" (St.new inpH) g1).isSome = true := by decide
+def g2 : Global := (((eval envM 20).rule "S" (St.new inpH) g1).get second_some).2
+theorem run1 : Run envM (Global.init 0) false g1 := by
+  have h := Run.rule (env := envM) (run_eq first_some)
+  have hb : (((eval envM 20).rule "Num" (St.new inpH) (Global.init 0)).get first_some).1.isPanic = false := by decide
+  rw [hb] at h; exact h
+example : ∀ l2, g2.log = l2 ++ g1.log → evals l2 ("Num", 0) = 0 := fun l2 hl2 =>
+  C06_no_reevaluation hnl run1 (Run.rule (run_eq second_some)) (l1 := g1.log) (by simp [Global.init]) hl2
+    (by decide)
+/-- the second evaluation did happen, used the entry twice and evaluated only the new key `("Num", 2)` -/
+example : hits g2.log = 2 ∧ evals g2.log ("Num", 0) = 1 ∧ evals g2.log ("Num", 2) = 1 ∧ evals g1.log ("Num", 0) = 1 := by
+  decide
+
+end C06_nv
+/-! ## non-vacuity (END) -/
 
 end Peg.Props
